@@ -421,6 +421,14 @@ def grid_cells(res_models=(3, 4), econ_models=(1, 2, 3)):
     return cells
 
 
+def odd_cells():
+    """Grid cells outside the main walk that the simulator accepts: direct-use heat with a power-plant type code
+    (the plant is then the industrial-heat plant) and the cylindrical reservoir model."""
+    cells = [(em, 2, pt, rm) for em in (1, 2, 3) for pt in (1, 2, 3, 4) for rm in (3, 4)]
+    cells += [(em, eu, pt, 0) for em in (1, 2, 3) for eu, pt in ((1, 1), (1, 2), (2, 9), (31, 2), (2, 6), (2, 5), (52, 4), (41, 1))]
+    return cells
+
+
 def synth_case(rng, cell, *, costs=True, incentives=True, prices=True, addons=None, overpressure=None, nseg=None,
                impedance=None, resource='plausible'):
     """One synthetic configuration for grid cell (economic model, end-use, plant type, reservoir model)."""
